@@ -30,7 +30,7 @@ ASSUMPTIONS = ['expressions are side-effect free; the fault model is seam-level:
                'frame whose locals were read may be delayed until the next read or the frame\'s exit (CPython 3.12 keeps the f_locals snapshot on the '
                'frame, for every tool that reads locals) and is not compared; the reference for frame lifetimes is a tracer that reads the locals at the '
                'tracepoint location and keeps nothing',
-               'the program does not run within a handful of frames of the recursion limit (any Python-level trace function needs stack of its own)']
+               'a program that leaves less than one frame below the recursion limit fails under any Python-level trace function; from one frame up it is compared (program near_limit)']
 
 KINDS = ['snapshot', 'watches', 'snap_log', 'log_only', 'metric', 'span', 'capture', 'cond_true', 'cond_false', 'cond_fail', 'cond_base',
          'bad_counts', 'nameless_method_span', 'pair_snap_span', 'pair_log_metric']
@@ -281,16 +281,18 @@ class Passive:
     frame.f_locals leaves a snapshot dict on the frame until the next read: a local that is deleted later, such as the
     name bound by `except ... as e`, stays referenced from it - for *every* tool that reads locals.)"""
 
-    def __init__(self, path, loc):
+    def __init__(self, path, loc, first_only=False):
         self.file = path
         self.loc = loc
+        self.budget = 1 if first_only else -1      # like fire_count: the agent may read at every hit or at the first only
 
     def trace_call(self, frame, event, arg):
         code = frame.f_code
-        if code.co_filename == self.file:
+        if code.co_filename == self.file and self.budget != 0:
             if (self.loc[0] == 'line' and event == 'line' and frame.f_lineno == self.loc[1]) or \
                     (self.loc[0] == 'fn' and event == 'call' and code.co_name == self.loc[1]):
                 frame.f_locals
+                self.budget -= 1
         return self.trace_call
 
 
@@ -307,12 +309,19 @@ def passive_frames(name, loc):
         hook = threading.excepthook
         threading.excepthook = lambda a: None
         try:
-            with NoCollector():
-                run = run_installed(Passive(lo.path, tuple(loc)), lo.ns['main'])
-                _PASSIVE[key] = live_frames(lo.path)
+            alive = []
+            for first_only in (False, True):
+                lo = progs.load(name)
+                inject(lo)
+                with NoCollector():
+                    run = run_installed(Passive(lo.path, tuple(loc), first_only), lo.ns['main'])
+                    now = live_frames(lo.path)
+                del run
+                for f in set(now):
+                    alive += [f] * max(0, now.count(f) - alive.count(f))
+            _PASSIVE[key] = sorted(alive)
         finally:
             threading.excepthook = hook
-        del run
     return _PASSIVE[key]
 
 
